@@ -962,7 +962,10 @@ static mpt::node *text_node(const char *name, size_t len, int salt, int kind)
 	struct iovec vec; vec.iov_base = (void *) txt.data(); vec.iov_len = len;
 	mpt::value val; val._type = mpt::type_properties<mpt::span<const char> >::id(true); val._addr = &vec;
 	mpt::metatype *mt;
+	const char *none = 0; mpt::value sval; sval._type = 's'; sval._addr = &none;
 	if (kind == 0) mt = mpt::mpt_meta_new(&val);
+	else if (kind == 2) mt = mpt::mpt_meta_geninfo(len);        // text value that was never assigned ('s' conversion gives NULL)
+	else if (kind == 3) mt = mpt::mpt_meta_new(&sval);           // string value without text
 	else if ((mt = mpt::mpt_meta_geninfo(len)) && mpt::_mpt_geninfo_set(mt + 1, txt.data(), (int) len) < 0) { mt->unref(); mt = 0; }
 	if (!mt) return 0;
 	mpt::node *n = mpt::mpt_node_new(2);
@@ -979,12 +982,14 @@ static void value_case(Run &r, Ctx &x)
 		else for (size_t l = 0; l <= 320; ++l) lens.push_back(l);
 	}
 	size_t L = lens[x.choose(lens.size())];
-	int shape = (int) x.choose(4), op = (int) x.choose(3), gens = 1 + (int) x.choose(2), kind = (int) x.choose(2);
+	int shape = (int) x.choose(4), op = (int) x.choose(3), gens = 1 + (int) x.choose(2), kind = (int) x.choose(4);
 	if (kind == 1 && L + 2 > 249) return;     // the C geninfo metatype holds at most 249 bytes of text
+	if (kind >= 2 && L > 2) return;           // unset values: the length only is the reserved capacity
 	static const char *shp[] = { "a", "a{b}", "a{b{c}}", "[a b{c}]" };
 	static const char *opn[] = { "mpt_node_clone", "mpt_list_clone", "mpt_tree_clone" };
-	std::string cls = std::string(kind ? "geninfo," : "meta_new,") + (L == 0 ? "empty-text" : (L < 250 ? "small-text" : "large-text"));
-	std::string desc = fmt("%s of %s whose values are texts of %zu.. bytes made by %s, %s", opn[op], shp[shape], L, kind ? "mpt_meta_geninfo" : "mpt_meta_new", gens == 1 ? "copy compared with source" : "copy of the copy compared with source");
+	static const char *kn[] = { "mpt_meta_new", "mpt_meta_geninfo", "mpt_meta_geninfo (text never assigned)", "mpt_meta_new (string value without text)" };
+	std::string cls = kind >= 2 ? std::string(kind == 2 ? "geninfo,unset-text" : "meta_new,unset-text") : std::string(kind ? "geninfo," : "meta_new,") + (L == 0 ? "empty-text" : (L < 250 ? "small-text" : "large-text"));
+	std::string desc = fmt("%s of %s whose values are texts of %zu.. bytes made by %s, %s", opn[op], shp[shape], L, kn[kind], gens == 1 ? "copy compared with source" : "copy of the copy compared with source");
 	r.note("%s", desc.c_str());
 	++r.states;
 	static bool warm = false;
@@ -1086,7 +1091,8 @@ static const char *required[] = {
 	"dtor:root,first,leaf", "dtor:root,first,with-children", "dtor:root,middle,leaf", "dtor:root,last,leaf", "dtor:root,only,with-children", "dtor:child,first,leaf", "dtor:child,middle,leaf", "dtor:child,last,with-children", "dtor:child,only,leaf",
 	"relink:restore below depth 1", "relink:restore with stale back links",
 	"value:meta_new,small-text clone compared byte-exact", "value:meta_new,large-text clone compared byte-exact", "value:meta_new,empty-text clone compared byte-exact",
-	"value:geninfo,small-text clone compared byte-exact", "value:geninfo,empty-text clone compared byte-exact", "value:clone of clone", "observer:traversals(4 orders x 3 filters per root list)",
+	"value:geninfo,small-text clone compared byte-exact", "value:geninfo,empty-text clone compared byte-exact", "value:clone of clone",
+	"value:geninfo,unset-text clone compared byte-exact", "value:meta_new,unset-text clone compared byte-exact", "observer:traversals(4 orders x 3 filters per root list)",
 	"parse:into empty root", "parse:merge into populated root" };
 void mc_explore(Run &r, const std::string &job)
 {
